@@ -84,7 +84,7 @@ func (dec *Decoder) decodeComplex128(t reflect.Type, tag byte, p *complex128) {
 		return
 	}
 	switch tag {
-	case TagEmpty, TagFalse:
+	case TagNull, TagEmpty, TagFalse:
 		*p = 0
 	case TagTrue:
 		*p = 1
